@@ -4,6 +4,7 @@ from __future__ import annotations
 import copy
 import warnings
 
+import z3
 from symx import core
 from symx.core import Sym, And, Or, Not, Implies, eq, le, HarnessError, Abort
 
@@ -22,6 +23,13 @@ def guarded(env, name, fn, *args, allow=(), **kwargs):
     except HarnessError:
         raise
     except Exception as e:  # noqa: BLE001 - product code may raise anything
+        tb = e.__traceback__
+        while tb.tb_next is not None:
+            tb = tb.tb_next
+        origin = tb.tb_frame.f_code.co_filename
+        if isinstance(e, (AttributeError, NameError, z3.Z3Exception)) and ('/symx/' in origin or '/vcheck/' in origin):
+            # raised by the engine / a harness, not by the product: never evidence of a violation
+            raise HarnessError(f"{name}: {type(e).__name__} inside the verification machinery ({origin}): {e}")
         env.fail(f"{name}:raises:{type(e).__name__}", f"{type(e).__name__}: {e}",
                  detail=f"{type(e).__name__}: {str(e)[:200]}")
         raise EndPath(f"{name} raised {type(e).__name__}")
